@@ -162,7 +162,21 @@ class HashSeedEngine(Engine):
                 if free:
                     protos.append({"core": base["core"], "loc": base["loc"], "product": rng.choice(free), "cutoff": 5})
                 continue
+            if circular and rng.random() < 0.3:
+                # core and neighbourhood crossing the origin, cores sharing starts with others
+                upper = rng.choice([6, 14, 21])
+                lower = rng.choice([14, 33])
+                core = [[length - upper, length], [0, lower]]
+                extra = rng.choice([0, 0, 23])
+                loc = [[length - upper - extra, length], [0, lower]]
+                product = rng.choice(products)
+                if not any(p["loc"] == loc and p["core"] == core and p["product"] == product for p in protos):
+                    protos.append({"core": core, "loc": loc, "product": product, "cutoff": 5})
+                continue
             anchor = rng.choice(genes)["parts"][0]
+            if circular and rng.random() < 0.3:
+                start = length - rng.choice([14, 14, 21])       # plain cores near the end, sharing starts
+                anchor = [start, start + rng.choice([7, 10])]
             core = [[anchor[0], min(length, anchor[1] + rng.choice([0, 10, 30]))]]
             dist = rng.choice([0, 5, 20, 400])
             loc = [[max(0, core[0][0] - dist), min(length, core[0][1] + dist)]]
@@ -178,6 +192,29 @@ class HashSeedEngine(Engine):
             if any(p["loc"] == loc and p["core"] == core and p["product"] == product for p in protos):
                 continue
             protos.append({"core": core, "loc": loc, "product": product, "cutoff": 5})
+        if circular and rng.random() < 0.5:
+            # a scene around the origin: hybrids whose combined core crosses the origin (they share the
+            # first gene as defining gene) plus protoclusters near the end whose cores share a start
+            shared = rng.sample(products, rng.randint(1, 3))
+            genes[0]["cores"] = sorted(set(genes[0]["cores"]) | set(shared))
+            first_end = genes[0]["parts"][0][1]
+            for _ in range(rng.randint(2, 3)):
+                upper = rng.choice([6, 14, 21])
+                lower = first_end + rng.choice([0, 4, 19])
+                core = [[length - upper, length], [0, lower]]
+                extra = rng.choice([0, 0, 23])
+                candidate = {"core": core, "loc": [[length - upper - extra, length], [0, lower]],
+                             "product": rng.choice(shared), "cutoff": 5}
+                if not any(p["loc"] == candidate["loc"] and p["core"] == core and p["product"] == candidate["product"]
+                           for p in protos):
+                    protos.append(candidate)
+            start = length - rng.choice([10, 14])
+            for size in rng.sample([3, 5, 7, 10], rng.randint(1, 3)):
+                core = [[start, start + size]]
+                candidate = {"core": core, "loc": rng.choice([core, [[start - 30, length], [0, 26]]]),
+                             "product": rng.choice(products), "cutoff": 5}
+                protos.append(candidate)
+            rng.shuffle(protos)
         subs = []
         if rng.random() < 0.3:
             start = rng.randrange(0, length - 20)
